@@ -5,6 +5,7 @@ import (
 	"fmt"
 	"math"
 	"reflect"
+	"strconv"
 
 	"github.com/safing/portbase/log"
 )
@@ -138,12 +139,6 @@ func validateValue(option *Option, value interface{}) (*valueCache, *ValidationE
 		if option.OptType != OptTypeInt {
 			return nil, invalid(option, "expected type %s, got type %T", getTypeName(option.OptType), v)
 		}
-		if option.compiledRegex != nil {
-			// we need to use %v here so we handle float and int correctly.
-			if !option.compiledRegex.MatchString(fmt.Sprintf("%v", v)) {
-				return nil, invalid(option, "did not match validation regex")
-			}
-		}
 		switch v := value.(type) {
 		case int:
 			validated = &valueCache{intVal: int64(v)}
@@ -179,6 +174,13 @@ func validateValue(option *Option, value interface{}) (*valueCache, *ValidationE
 			}
 		default:
 			return nil, invalid(option, "internal error")
+		}
+		if option.compiledRegex != nil {
+			// Match the decimal form of the converted integer: formatting a
+			// float64 (as loaded from JSON) with %v yields "1e+06" for 1000000.
+			if !option.compiledRegex.MatchString(strconv.FormatInt(validated.intVal, 10)) {
+				return nil, invalid(option, "did not match validation regex")
+			}
 		}
 	case bool:
 		if option.OptType != OptTypeBool {
